@@ -354,6 +354,9 @@ func c05One(c *Ctx, pki *PKI, cfg c05Cfg, r *Rand) {
 		}
 		lastJ[h] = ej + 1
 		n := c05Lens[(int(h)+ej)%len(c05Lens)]
+		if cfg.Stall > 0 && ej%5 != 4 {
+			n = 70000
+		}
 		if len(e.Attrs) != 1 || len(e.Attrs[0].Vals) != 1 || string(e.Attrs[0].Vals[0]) != string(c05Payload(h, ej, n)) {
 			c.Violate("frame payload does not match its id (torn or merged frame)", fmt.Sprintf("h=%d j=%d", h, ej), det)
 		}
